@@ -35,6 +35,8 @@ pub struct SimTable {
     pub unbounded: bool,
     pub accept_filters: bool,
     pub view: bool,
+    /// declare the scan as ordered by id (column 0) instead of k
+    pub sorted_by_id: bool,
 }
 
 #[async_trait]
@@ -53,15 +55,16 @@ impl TableProvider for SimTable {
         _limit: Option<usize>,
     ) -> Result<Arc<dyn ExecutionPlan>> {
         let proj: Option<Vec<usize>> = projection.map(|p| p.to_vec());
-        let ordering = if self.sorted_by_k {
-            // column k is index 1 of the table schema
+        let ordering = if self.sorted_by_k || self.sorted_by_id {
+            // column id is index 0, k is index 1 of the table schema
+            let (name, col) = if self.sorted_by_id { ("id", 0) } else { ("k", 1) };
             let pos = match &proj {
-                None => Some(1),
-                Some(p) => p.iter().position(|c| *c == 1),
+                None => Some(col),
+                Some(p) => p.iter().position(|c| *c == col),
             };
             pos.and_then(|i| {
                 LexOrdering::new(vec![PhysicalSortExpr::new(
-                    Arc::new(Column::new("k", i)),
+                    Arc::new(Column::new(name, i)),
                     SortOptions { descending: false, nulls_first: true },
                 )])
             })
@@ -167,6 +170,7 @@ pub struct TableSpec {
     pub unbounded: bool,
     pub accept_filters: bool,
     pub view: bool,
+    pub sorted_by_id: bool,
 }
 
 pub fn parse_tables(v: &Value) -> Option<Vec<TableSpec>> {
@@ -179,6 +183,7 @@ pub fn parse_tables(v: &Value) -> Option<Vec<TableSpec>> {
             unbounded: t.get("unbounded").and_then(|x| x.as_bool()).unwrap_or(false),
             accept_filters: t.get("filters").and_then(|x| x.as_bool()).unwrap_or(false),
             view: t.get("view").and_then(|x| x.as_bool()).unwrap_or(false),
+            sorted_by_id: t.get("order").and_then(|x| x.as_str()) == Some("id"),
         });
     }
     if out.is_empty() || out.len() > 4 {
@@ -202,6 +207,7 @@ pub fn build_session(env: &EnvSpec, knobs: &Value, tables: &[TableSpec]) -> Opti
             unbounded: t.unbounded,
             accept_filters: t.accept_filters,
             view: t.view,
+            sorted_by_id: t.sorted_by_id,
         };
         ctx.register_table(t.name.as_str(), Arc::new(tbl)).ok()?;
         stats.push((t.name.clone(), st));
